@@ -24,7 +24,7 @@ fn sym(k: usize, step: usize) -> (Option<Vec<f32>>, Option<f32>) {
             f[9] = 0.02;
             (Some(f), Some(0.5))
         }
-        3 => (Some(f), Some(0.9)),
+        3 | 5 => (Some(f), Some(0.9)),
         _ => (None, None),
     }
 }
@@ -70,8 +70,14 @@ fn run_word(cfg: &TrkCfg, word: &[usize], viol: &mut Vec<Viol>, steps: &mut u64)
         if let (Some(f), Some(q)) = (&f, qual) {
             d = d.feat(f, q);
         }
-        let recs = trk.predict(0, &[d.clone(), distractor.shift(0.0, 0.1 * k as f32)]);
-        if recs.len() != 2 {
+        // symbol 5: a good feature, but half of the box is covered by another detection of the same frame
+        // (exclusively owned share 0.5)
+        let mut frame = vec![d.clone(), distractor.shift(0.0, 0.1 * k as f32)];
+        if *s == 5 {
+            frame.push(Det { bbox: d.shift(5.0, 0.0).bbox, custom_id: None, feature: None, quality: None });
+        }
+        let recs = trk.predict(0, &frame);
+        if recs.len() != frame.len() {
             bad!(k, "gallery/record-count", format!("{} records", recs.len()));
         }
         let r = &recs[0];
@@ -131,7 +137,8 @@ fn run_word(cfg: &TrkCfg, word: &[usize], viol: &mut Vec<Viol>, steps: &mut u64)
             let collectable = match (&newcomer, k) {
                 (None, _) => false,
                 (Some(_), 0) => true, // the detection that starts a track keeps its feature
-                (Some(n), _) => f32::from_bits(n.0) >= Q_COLLECT,
+                // the own-area shares are computed when either own-area threshold is configured
+                (Some(n), _) => f32::from_bits(n.0) >= Q_COLLECT && !(*s == 5 && cfg.vis.own_use + cfg.vis.own_collect > 0.0 && 0.5 < cfg.vis.own_collect),
             };
             let has_new = newcomer.as_ref().map_or(false, |n| now.contains(n));
             // the statement speaks of detections that continue a track; for the one that starts it a
@@ -202,11 +209,12 @@ fn run_word(cfg: &TrkCfg, word: &[usize], viol: &mut Vec<Viol>, steps: &mut u64)
 
 pub fn run(tier: Tier) -> Report {
     let rep = Report::new("C13", tier);
-    rep.set_rule("one continuing (slowly drifting) object plus a distractor; per update a symbol from {quality .1 (below the collect threshold .3), .5, .5 (another vector), .9, no feature}; every word of length <= L (quick 6, thorough 8) and every word of length <= 4 repeated to N updates (quick 60, thorough 300) x visual_max_observations 1..4 (thorough 1..8) x history length {1,3} (thorough 1..10 subset) on VisualSort / BatchVisualSort (galleries + histories) and Sort / BatchSort (histories); after every update the gallery and the histories are read from the live store. Non-trivial = word with at least two features.");
+    rep.set_rule("one continuing (slowly drifting) object plus a distractor; per update a symbol from {quality .1 (below the collect threshold .3), .5, .5 (another vector), .9, no feature}; every word of length <= L (quick 6, thorough 8) and every word of length <= 4 repeated to N updates (quick 60, thorough 300) x visual_max_observations 1..4 (thorough 1..8) x history length {1,3} (thorough 1..10 subset) on VisualSort / BatchVisualSort (galleries + histories) and Sort / BatchSort (histories); plus, with the own-area 'collect' threshold configured alone (.6, .4), together with a 'use' threshold, and off, every word of length <= L-1 containing a sixth symbol (quality .9 but half of the box covered by another detection of the frame: exclusively owned share .5); after every update the gallery and the histories are read from the live store. Non-trivial = word with at least two features.");
     rep.assume("eviction is demanded only when capacity would be exceeded and allowed whenever the gallery was full before the update (the implementation also evicts when the newcomer carries no feature)");
     let l = tier.pick(6usize, 8usize);
     let unroll = tier.pick(60usize, 300usize);
     let mut cfgs: Vec<TrkCfg> = vec![];
+    let mut half_covered: Vec<usize> = vec![];
     let maxes: Vec<usize> = tier.pick(vec![1, 2, 3, 4], vec![1, 2, 3, 4, 5, 8]);
     let hists: Vec<usize> = tier.pick(vec![1, 3], vec![1, 2, 4, 10]);
     for &m in &maxes {
@@ -231,6 +239,22 @@ pub fn run(tier: Tier) -> Report {
             }
         }
     }
+    // the own-area 'collect' threshold (alone, and together with a 'use' threshold): 6-symbol alphabet with
+    // the half-covered detection
+    for (m, own_use, own_collect, kind) in [(2usize, 0.0f32, 0.6f32, Kind::VisualSort), (3, 0.1, 0.6, Kind::VisualSort), (2, 0.0, 0.0, Kind::VisualSort), (2, 0.0, 0.6, Kind::BatchVisualSort), (3, 0.0, 0.4, Kind::VisualSort)] {
+        let mut c = TrkCfg::new(kind);
+        c.history = 2;
+        c.max_idle = 1;
+        c.vis.max_obs = m;
+        c.vis.min_track_len = 2;
+        c.vis.q_collect = Q_COLLECT;
+        c.vis.q_use = 0.2;
+        c.vis.metric = Vis::Euclid(0.5);
+        c.vis.own_use = own_use;
+        c.vis.own_collect = own_collect;
+        half_covered.push(cfgs.len());
+        cfgs.push(c);
+    }
     for &h in &hists {
         for kind in [Kind::Sort, Kind::BatchSort] {
             for pos in [Pos::Iou(0.3), Pos::Maha] {
@@ -245,7 +269,7 @@ pub fn run(tier: Tier) -> Report {
     let mut total_w = 0u64;
     let mut total_s = 0u64;
     let mut nontrivial = 0u64;
-    for cfg in cfgs {
+    for (cfg_i, cfg) in cfgs.into_iter().enumerate() {
         if rep.out_of_time() {
             rep.cap_hit(&format!("wall budget reached before {:?}", cfg.json()));
             continue;
@@ -253,7 +277,17 @@ pub fn run(tier: Tier) -> Report {
         let visual = cfg.kind.is_visual();
         let mut ws: Vec<Vec<usize>> = vec![];
         // positional-only trackers ignore the symbols: one word per length is enough for the histories
-        if visual {
+        if visual && half_covered.contains(&cfg_i) {
+            let lmax = if cfg.kind == Kind::BatchVisualSort { l - 2 } else { l - 1 };
+            for len in 1..=lmax {
+                ws.extend(words(6, len).into_iter().filter(|w| w.contains(&5)));
+            }
+            for len in 1..=3 {
+                for w in words(6, len).into_iter().filter(|w| w.contains(&5)) {
+                    ws.push(w.iter().cycle().take(unroll.min(60)).cloned().collect());
+                }
+            }
+        } else if visual {
             let lmax = if cfg.kind == Kind::BatchVisualSort { l - 2 } else { l };
             for len in 1..=lmax {
                 ws.extend(words(5, len));
@@ -286,7 +320,7 @@ pub fn run(tier: Tier) -> Report {
                 Ok((v, st)) => {
                     total_s += st;
                     for (w, key, what) in v {
-                        rep.violation(Violation { key, what, replay: json!({"config":cfg.json(),"word":w,"symbols":"0: q=.1, 1: q=.5, 2: q=.5 (other vector), 3: q=.9, 4: no feature"}) });
+                        rep.violation(Violation { key, what, replay: json!({"config":cfg.json(),"word":w,"symbols":"0: q=.1, 1: q=.5, 2: q=.5 (other vector), 3: q=.9, 4: no feature, 5: q=.9 but half covered by another detection"}) });
                     }
                 }
                 Err(e) => rep.violation(Violation { key: format!("{}/panic-or-deadlock", cfg.kind.name()), what: e.chars().take(300).collect(), replay: json!({"config":cfg.json(),"chunk_first_word":ws[ci * chunk]}) }),
